@@ -232,6 +232,7 @@ def fixed_corpus():
     out.append(Def([L('regex', '[^a]'), L('token', 'aé'), L('regex', 'a中+'), L('regex', 'a😀?b')], origin='fixed:multibyte'))
     # look-around: end anchor, word boundary
     out.append(Def([L('regex', 'c$'), L('regex', 'c[a-b]+'), L('token', 'd')], origin='fixed:eoi'))
+    out.append(Def([L('regex', 'c$'), L('token', 'd'), L('regex', 'ab$')], origin='fixed:eoi2'))
     out.append(Def([L('regex', '[a-z]+(?-u:\\b)'), L('regex', '[a-z]+[0-9]', prio=20), L('skip', ' +')], origin='fixed:wordb'))
     # string / comment style tokens, lazy and greedy
     out.append(Def([L('regex', '"([^"\\\\]|\\\\.)*"'), L('regex', '/\\*([^*]|\\*[^/])*\\*/'), L('regex', '//[^\\n]*', allow_greedy=True),
